@@ -103,6 +103,15 @@ func (s *State) assumeAllocated(v Val) {
 	case KScalar:
 		if v.T != nil && isRefType(v.T) && v.S.sort == SInt && v.S.kind != 'c' {
 			s.assume(Or(Eq(v.S, IntLit(0)), Select(s.H(allocKey, allocSort), v.S)))
+			if f := refTagFact(v); f != True {
+				s.assume(f)
+			}
+		}
+		if v.T != nil && v.S.sort == SInt && v.S.kind != 'c' {
+			if _, isArr := v.T.Underlying().(*types.Array); isArr {
+				// an array value is an id into the element heap: an existing row, distinct from rows allocated later
+				s.assume(Select(s.H(allocAKey, allocSort), v.S))
+			}
 		}
 	case KSlice:
 		if v.F[0].S.kind != 'c' {
